@@ -64,8 +64,15 @@ class Contract:
         """call-site arguments -> State (default: positional as given)"""
         return State(selfobj, args, kw)
 
+    def frame_on_raise(s, E, st):
+        """objects that must be unchanged when the call is rejected (default: same as frame)"""
+        return s.frame(E, st)
+
     def use(s, E, selfobj, args, kw):
+        from .states import snapshot
         st = s.bind(E, selfobj, args, kw)
+        st.old = {'self': snapshot(selfobj) if isinstance(selfobj, Obj) else None,
+                  'args': [snapshot(a) for a in args], 'kw': {k: snapshot(v) for k, v in kw.items()}}
         for i, r in enumerate(s.requires(E, st)):
             if isinstance(r, bool):
                 if not r:
